@@ -578,7 +578,7 @@ class ProdParser:
 
                 except ParseError as e:
                     # needed???
-                    if stopIfNoMoreMatch:  # and token:
+                    if stopIfNoMoreMatch and not isinstance(e, Missing):
                         # print "\t2stopIfNoMoreMatch", e, token, prod
                         tokenizer.push(token)
                         stopall = True
